@@ -523,6 +523,22 @@ func c11Sequential(c *wk.Ctx, ctx context.Context, r *wk.Rand, p *c11Plugin, env
 						if err == nil {
 							c.Violation("C11:unknown-signal-or-step:no-error", "CallSignal for an unknown step or signal ID returned no error", wit)
 						}
+						if stepObj, isStep := p.schema.StepsValue[sid]; isStep && sshape == nil {
+							// the step object is public API as well: the same unknown signal ID handed to it directly
+							var derr error
+							runN++
+							if pn, site, msg, _ := wk.Guard(func() {
+								derr = stepObj.CallSignal(ctx, fmt.Sprintf("run-%d-%d", idx, runN), sigID, cmpx.DeepCopy(in))
+							}); pn {
+								c.Violation("C11:panic:step.CallSignal:"+site, fmt.Sprintf("CallSignal(signal %q) on the step object %q panicked: %s", sigID, sid, msg), wit)
+							} else if derr == nil {
+								c.Violation("C11:unknown-signal-or-step:no-error:step-object", "CallSignal on the step object for an unknown signal ID returned no error", wit)
+							}
+							c.Count("callsignal_on_step_object_unknown_id")
+							p.rec.mu.Lock()
+							calls = append([]c11Call{}, p.rec.sigCalls[before:]...)
+							p.rec.mu.Unlock()
+						}
 						if len(calls) != 0 {
 							c.Violation("C11:unknown-signal-or-step:handler-ran", "a signal handler ran for an unknown step or signal ID", wit)
 						}
